@@ -57,7 +57,12 @@ def build_nfa(spec):
             delta[q, a] = shared[key]
         else:
             delta[q, a] = _set(T)
-    if not spec.get('dd', True):
+    if 'empty_keys' in spec:
+        # exact reconstruction of a live object's mapping (see rebuild_hints): keys with empty target sets as they were
+        for q, a in spec['empty_keys']:
+            if (q, a) not in delta:
+                delta[q, a] = set()
+    elif not spec.get('dd', True):
         # a plain dict must be total for the library's N.delta[q, eps] reads
         for q in spec['Q']:
             for a in list(spec['Sigma']) + [spec['eps']]:
@@ -219,6 +224,18 @@ def _plain(x):
     if isinstance(x, (DFA, NFA, PDA, TM, CFG, rx.Regexp)):
         return snapshot(x)
     return repr(x)
+
+
+def rebuild_hints(obj):
+    """What a snapshot deliberately leaves out but an exact reconstruction of "equal arguments" needs: whether the
+    transition map is a defaultdict, and which keys of a plain dict hold empty target sets."""
+    if isinstance(obj, NFA):
+        dd = isinstance(obj.delta, defaultdict)
+        h = {'dd': dd}
+        if not dd:
+            h['empty_keys'] = sorted([str(q), str(a)] for (q, a), T in obj.delta.items() if len(T) == 0)
+        return h
+    return {}
 
 
 def kind_of(obj):
